@@ -518,6 +518,34 @@ def render_instance(rng, x, lay=True, cmt=True, risky=None):
     risky = one of RISKY: additionally the named conforming shape on which the two readers are known to have differed."""
     where = None
     simple = len(x["parts"]) == 1
+    if risky == "several-comments":
+        # comments at several of the positions around and inside the record at once (the readers agree on them since fixes/C10-8)
+        pos = ["lead", "lead2", "ideq", "eq", "kwparen", "param", "semi"]
+        on = {q for q in pos if rng.random() < 0.5}
+        while len(on) < 2:
+            on.add(rng.choice(pos))
+        out = ws(rng, lay)
+        if "lead" in on:
+            out += comment(rng, semi=False) + ws(rng, lay)
+        if "lead2" in on:
+            out += comment(rng, semi=False) + ws(rng, lay)
+        out += f"#{x['id']}" + ws(rng, lay)
+        if "ideq" in on:
+            out += comment(rng, semi=False) + ws(rng, lay)
+        out += "=" + ws(rng, lay)
+        if "eq" in on:
+            out += comment(rng, semi=False) + " " + ws(rng, lay)
+        if not simple:
+            out += "(" + "".join(p.upper() + render_params(rng, vs, lay, None) for (p, vs) in x["parts"]) + ")"
+        else:
+            p, vs = x["parts"][0]
+            out += p.upper()
+            if "kwparen" in on:
+                out += " " + comment(rng, semi=False) + " "
+            out += render_params(rng, vs, lay, rng.randrange(len(vs)) if ("param" in on and vs) else None)
+        if "semi" in on:
+            out += ws(rng, lay) + comment(rng, semi=False)
+        return out + ws(rng, lay) + ";"
     if risky == "two-comments-one-instance":
         where = "lead"
     elif risky is None and cmt and rng.random() < 0.4:
